@@ -230,11 +230,13 @@ class _Gen:
         deco = None
         if in_class:
             deco = r.choice([None, None, None, 'classmethod', 'staticmethod', 'property', 'property+setter', 'old-classmethod',
-                             'old-staticmethod', 'noop'] + (['noop+staticmethod', 'noop+classmethod', 'noop+property', 'staticmethod+noop', 'classmethod+noop'] if self.f.rebind else []))
+                             'old-staticmethod', 'noop'] + (['noop+staticmethod', 'noop+classmethod', 'noop+property', 'staticmethod+noop', 'classmethod+noop',
+                                                                 'staticmethod>classmethod', 'classmethod>staticmethod', 'old-staticmethod>classmethod', 'old-classmethod>staticmethod'] if self.f.rebind else []))
         else:
             deco = r.choice([None, None, None, 'noop'])
         first = {'classmethod': 'cls', 'old-classmethod': 'cls', 'staticmethod': '', 'old-staticmethod': '', 'noop+staticmethod': '', 'staticmethod+noop': '',
-                 'noop+classmethod': 'cls', 'classmethod+noop': 'cls'}.get(deco or '', 'self') if in_class else ''
+                 'noop+classmethod': 'cls', 'classmethod+noop': 'cls', 'staticmethod>classmethod': 'cls', 'classmethod>staticmethod': '',
+                 'old-staticmethod>classmethod': 'cls', 'old-classmethod>staticmethod': ''}.get(deco or '', 'self') if in_class else ''
         extra = r.choice(['', 'a', 'a, b=1', '*args, **kw', 'a: int = 0'])
         if deco in ('property', 'property+setter', 'noop+property'):
             extra = ''
@@ -275,6 +277,12 @@ class _Gen:
             return dup
         dup = dataclasses.replace(d, members=list(d.members))
         dup.doc = r.choice([None, (d.doc or '') + ' second definition.'])
+        if d.kind == 'class' and r.random() < .5:
+            # the later definition of the name differs in what it derives from (an exception or not)
+            if d.bases in ([], ['object'], ['dict']):
+                dup.bases, dup.base_uids = [r.choice(['Exception', 'KeyError'])], [None]
+            elif d.bases and d.base_uids == [None]:
+                dup.bases, dup.base_uids = [], []
         return dup
 
     def make_var(self, mid: int, scope: str, refs: List[str]) -> Item:
@@ -285,6 +293,10 @@ class _Gen:
         it = Item(kind='var', name=name, uid=uid, value=value)
         if r.random() < .25:
             it.ann = r.choice(['int', 'str', "'object'", 'list'])
+        elif scope and self.f.docstyle == 'epytext' and getattr(self, 'cur_defs', None) and r.random() < .4:
+            # (string annotation spelling the full dotted name of something defined in this very module, without importing it)
+            it.ann = "'" + self.spec.modname(mid) + '.' + r.choice(self.cur_defs) + "'"
+            it.value = 'None'
         if r.random() < .5:
             it.doc = f'Doc of variable {name} w{r.randrange(10**5):05d}.'
         it.returns = typ
@@ -514,7 +526,14 @@ class _Gen:
                     a = f'M{self.new_uid()}'
                     txt += f' as {a}'
                     local = a
-                it = Item(kind='import', text=txt, binds=[(local, 'mod', s.modname(src.mid))])
+                binds_ = [(local, 'mod', s.modname(src.mid))]
+                others = [x for x in earlier if x.parent == sp and x.mid != src.mid and x.name not in local_names and x.name != local]
+                if a is None and others and r.random() < .5:
+                    # several submodules in one statement
+                    for x in r.sample(others, min(len(others), r.randint(1, 2))):
+                        txt += f', {x.name}'
+                        binds_.append((x.name, 'mod', s.modname(x.mid)))
+                it = Item(kind='import', text=txt, binds=binds_)
                 for (n, uid, kind) in exp:
                     if kind == 'class':
                         visible.append((f'{local}.{n}', uid))
@@ -524,6 +543,7 @@ class _Gen:
         ndefs = r.randint(2, 6)
         exports: List[Tuple[str, int, str]] = []
         deferred: List[Item] = []
+        self.cur_defs: List[str] = []
         for _ in range(ndefs):
             k = r.random()
             if k < .45:
@@ -534,6 +554,8 @@ class _Gen:
             else:
                 d = self.make_var(m.mid, '', refs)
             refs.append(d.name)
+            if d.kind in ('func', 'var'):
+                self.cur_defs.append(d.name)
             exports.append((d.name, d.uid, d.kind))
             if f.blocks and r.random() < .2:
                 d = Item(kind='block', block=r.choice(BLOCKS), members=[d])
@@ -872,6 +894,11 @@ def _emit_items(g: Optional[_Gen], items: List[Item], indent: str, out: List[str
             name = it.name
             if it.deco in ('classmethod', 'staticmethod', 'property'):
                 out.append(f'{indent}@{it.deco}')
+            elif it.deco and '>' in it.deco:
+                # wrapped once (decorator or assignment form), then wrapped again by assignment with the other wrapper: the last one counts
+                inner = it.deco.split('>')[0]
+                if not inner.startswith('old-'):
+                    out.append(f'{indent}@{inner}')
             elif it.deco and '+' in it.deco and it.deco != 'property+setter':
                 # stacked decorators, outermost first; _noop hands its argument back unchanged
                 for dname in it.deco.split('+'):
@@ -887,6 +914,11 @@ def _emit_items(g: Optional[_Gen], items: List[Item], indent: str, out: List[str
                 out.append(f'{indent}@{name}.setter')
                 out.append(f'{indent}def {name}(self, value):')
                 out.append(f'{indent}    pass')
+            if it.deco and '>' in it.deco:
+                inner, outer = it.deco.split('>')
+                if inner.startswith('old-'):
+                    out.append(f'{indent}{name} = {inner[4:]}({name})')
+                out.append(f'{indent}{name} = {outer}({name})')
             if it.deco == 'old-classmethod':
                 out.append(f'{indent}{name} = classmethod({name})')
             if it.deco == 'old-staticmethod':
